@@ -1,14 +1,16 @@
 #!/bin/bash
-# usage: tools/run_all_mutants.sh [tier] [out.tsv]  : every mutants/*.diff against its property's check (scratch worktrees only)
-# one line per mutant: <mutant> <rc> <number of VIOLATION lines> <first violating sub-check>
-TIER="${1:-quick}"; OUT="${2:-mutants/RESULTS.tsv}"
+# usage: tools/run_all_mutants.sh [tier] [out.tsv] [jobs] : every mutants/*.diff against its property's check (scratch worktrees only),
+# `jobs` mutants at a time with 16/jobs workers each.  One line per mutant: <mutant> <rc> <number of VIOLATION lines> <first violating sub-check>
+TIER="${1:-quick}"; OUT="${2:-mutants/RESULTS.tsv}"; JOBS="${3:-4}"
 cd "$(dirname "$0")/.."
-: > "$OUT"
-for m in mutants/c*.diff; do
-  b=$(basename "$m" .diff); pid=$(echo "${b%%_*}" | tr a-z A-Z)
-  out=$(tools/with_patch.sh "$m" ./check "$pid" --tier "$TIER" 2>&1); rc=$?
+W=$((16 / JOBS)); [ "$W" -lt 1 ] && W=1
+one() {
+  m="$1"; b=$(basename "$m" .diff); pid=$(echo "${b%%_*}" | tr a-z A-Z)
+  out=$(tools/with_patch.sh "$m" ./check "$pid" --tier "$TIER" --workers "$W" 2>&1); rc=$?
   nv=$(echo "$out" | grep -c '^VIOLATION')
   sub=$(echo "$out" | grep -m1 -A1 '^VIOLATION' | tail -1 | sed -E 's/.*sub=([^ ]+).*/\1/' | cut -c1-60)
-  printf '%s\t%s\t%s\t%s\n' "$b" "$rc" "$nv" "$sub" >> "$OUT"
-done
-awk -F'\t' '$2!=1{bad++} END{print NR" mutants, "bad+0" not caught"}' "$OUT"
+  printf '%s\t%s\t%s\t%s\n' "$b" "$rc" "$nv" "$sub"
+}
+export -f one; export TIER W
+ls mutants/c*.diff | xargs -P "$JOBS" -I{} bash -c 'one {}' | sort > "$OUT"
+awk -F'\t' '$2!=1{bad++; print "NOT CAUGHT: "$0} END{print NR" mutants, "bad+0" not caught"}' "$OUT"
